@@ -254,6 +254,23 @@ impl<'a> Norm<'a> {
     }
 
     /// N6 rewrites on one expression (after children were visited).
+    /// N6: `S[a..b] == [x, y, ..]` (slice against array literal) ==> `v_bytes_eq(&S[a..b], &[x, y, ..])`
+    /// (`==` between a slice and an array has no Verus specification; the adapter states element-wise equality)
+    fn n6_slice_eq(&mut self, e: &mut Expr) {
+        if let Expr::Binary(b) = e {
+            if matches!(b.op, syn::BinOp::Eq(_)) {
+                if let (Expr::Index(ix), Expr::Array(_)) = (&*b.left, &*b.right) {
+                    if matches!(&*ix.index, Expr::Range(_)) {
+                        let l = &b.left;
+                        let r = &b.right;
+                        *e = parse_quote!(v_bytes_eq(&#l, &#r));
+                        self.stats.bump("N6.slice_eq_array");
+                    }
+                }
+            }
+        }
+    }
+
     fn n6(&mut self, e: &mut Expr) {
         // X.to_le_bytes().to_vec()  /  X.to_be_bytes().to_vec()
         if let Expr::MethodCall(mc) = e {
@@ -929,6 +946,7 @@ impl<'a> VisitMut for Norm<'a> {
                 }
             }
         }
+        self.n6_slice_eq(e);
         self.n6(e);
         self.n9(e);
         self.n9_strviews(e);
